@@ -465,6 +465,9 @@ def rule_accel(chk):
         comp = [(i, c, env) for i, c, cal, env in cl if cal == 'self.acceleration_evals[index].compute']
         upd = [i for i, c, cal, env in cl if cal == 'self.nnps.update']
         pmu = [i for i, c, cal, env in cl if cal == 'self.parallel_manager.update']
+        dom = [cal for i, c, cal, env in cl if cal in ('self.nnps.update_domain', 'self.update_domain', 'self.nnps.domain.update')]
+        if dom:
+            bad.setdefault('ghosts-only-where-one_timestep-says', 'a path calls %s: ghosts are re-created (and particles wrapped) at an acceleration evaluation, not only where one_timestep calls update_domain()' % dom[0])
         if len(comp) != 1:
             bad.setdefault('calls', 'a path evaluates acceleration_evals[index].compute %d times' % len(comp))
             continue
@@ -490,7 +493,8 @@ def rule_accel(chk):
         bad.setdefault('calls', 'compute / nnps.update call vanished')
     for inst, ok_text in (('calls', 'one evaluation per path'), ('update-only-when-asked', 'under if update_nnps'), ('no-update-after-compute', 'refresh precedes compute'),
                           ('update-before-compute', 'every path through the branch updates first'), ('parallel-manager-first', 'parallel_manager.update() before nnps.update()'),
-                          ('evaluates-set-index-at-stage-time', 'acceleration_evals[index].compute(c.t, c.dt)')):
+                          ('evaluates-set-index-at-stage-time', 'acceleration_evals[index].compute(c.t, c.dt)'),
+                          ('ghosts-only-where-one_timestep-says', 'compute_accelerations never re-creates ghosts')):
         chk.decide(inst not in bad, 'accelerations-after-neighbour-refresh', inst, node=fn, file=INT, func='Integrator.compute_accelerations', detail_bad=bad.get(inst, ''), detail_ok=ok_text)
     ud = M.find_method(t, 'Integrator', 'update_domain')
     chk.decide(any(M.call_name(c) == 'self.nnps.update_domain' for c in M.calls(ud)), 'compiled-api-forwards', 'Integrator.update_domain', node=ud,
